@@ -823,3 +823,39 @@ def expand_starred(args, state):
         else:
             out.append(state.sub(a))
     return out
+
+
+def single_assign_env(fnode, keep=()):
+    """{name: fully inlined value} for names assigned exactly once in the
+    function, by a plain top-level assignment (copy propagation for
+    comparisons that should not depend on temporaries)."""
+    counts = {}
+    for n in ast.walk(fnode):
+        if isinstance(n, ast.Name) and isinstance(n.ctx, ast.Store):
+            counts[n.id] = counts.get(n.id, 0) + 1
+        elif isinstance(n, ast.AugAssign) and isinstance(n.target, ast.Name):
+            counts[n.target.id] = counts.get(n.target.id, 0) + 1
+    mutated = set()
+    for n in ast.walk(fnode):
+        if isinstance(n, ast.Call) and isinstance(
+                n.func, ast.Attribute) and isinstance(
+                    n.func.value, ast.Name) and n.func.attr in (
+                        'append', 'extend', 'sort', 'add', 'update', 'pop',
+                        'remove', 'insert', 'setdefault'):
+            mutated.add(n.func.value.id)
+        if isinstance(n, ast.Subscript) and isinstance(
+                n.ctx, ast.Store) and isinstance(n.value, ast.Name):
+            mutated.add(n.value.id)
+    env = {}
+    for st in fnode.body:
+        if isinstance(st, ast.Assign) and len(st.targets) == 1 and \
+                isinstance(st.targets[0], ast.Name) and counts.get(
+                    st.targets[0].id) == 1 and \
+                st.targets[0].id not in mutated and \
+                st.targets[0].id not in keep:
+            env[st.targets[0].id] = subst(st.value, env)
+    return env
+
+
+def inlined(expr, fnode, keep=()):
+    return subst(expr, single_assign_env(fnode, keep))
